@@ -148,12 +148,13 @@ type world struct {
 	sq  []syncEvt
 
 	// gc client fault plan (deterministic per key)
-	faultP    float64
-	faultCnt  map[string]int
-	podGetCnt map[string]int
-	lastHost  map[string]string // block CIDR -> last affinity seen in the store
-	faultsIn  int               // faults injected during the current sync
-	nodeGetF  int               // node Get faults during the current sync
+	faultP      float64
+	faultCnt    map[string]int
+	podGetCnt   map[string]int
+	lastHost    map[string]string // block CIDR -> last affinity seen in the store
+	bareDeleted map[string]bool   // non-Kubernetes node names whose resource was deleted in this history
+	faultsIn    int               // faults injected during the current sync
+	nodeGetF    int               // node Get faults during the current sync
 
 	// oracle model (oracle.go)
 	vnow       int64
@@ -179,7 +180,7 @@ func newWorld(c *harness.Case) (*world, error) {
 	}
 	r := c.R
 	w := &world{c: c, st: b.Clone(), apiPods: map[string]*v1.Pod{}, apiNodes: map[string]*v1.Node{}, pods: map[string]*podRec{},
-		faultCnt: map[string]int{}, podGetCnt: map[string]int{}, lastHost: map[string]string{}, V: map[string]*vblock{}, delivNodes: map[string]string{}}
+		faultCnt: map[string]int{}, podGetCnt: map[string]int{}, lastHost: map[string]string{}, bareDeleted: map[string]bool{}, V: map[string]*vblock{}, delivNodes: map[string]string{}}
 	w.adminBC = w.st.NewAdminClient("admin")
 	w.admin = clientv3.NewFromBackend(apiCfg, w.adminBC)
 	w.cni = clientv3.NewFromBackend(apiCfg, w.st.NewAdminClient("cni")).IPAM()
